@@ -116,7 +116,13 @@ pub fn gen(seed: u64, tier: &str) -> Vec<Value> {
         if rng.gen_bool(0.3) {
             let msg = ["", "denied", "nö %", "a b", "%", "%41", "path 'a%2Fb' (saw %41)", "100% sure", "%zz %4", "tab\there", "x%25y"][rng.gen_range(0..11)];
             let dl = rng.gen_range(0..5);
-            actions.push(json!({"op":"reject","n":"","v":[],"code":rng.gen_range(0..17),"msg":str_json(msg),"details":bytes_json(&(0..dl).map(|_| rng.gen()).collect::<Vec<u8>>()),"meta":crate::labs::status::rand_meta(&mut rng)}));
+            let mut meta = crate::labs::status::rand_meta(&mut rng);
+            // a third of the rejecting statuses carry, in their metadata, an entry named like the details header (metadata copied from
+            // some upstream response): the status's own details must still be the ones the caller receives
+            // (only when the status has details of its own: with none, the entry is simply the caller's header of that name and the
+            // statement does not say which of the two readings a peer should prefer)
+            if dl > 0 && rng.gen_bool(0.4) { meta.push(json!({"n":"grpc-status-details-bin","bin":true,"v":bytes_json(b"stale upstream details")})); }
+            actions.push(json!({"op":"reject","n":"","v":[],"code":rng.gen_range(0..17),"msg":str_json(msg),"details":bytes_json(&(0..dl).map(|_| rng.gen()).collect::<Vec<u8>>()),"meta":meta}));
         }
         let bl = rng.gen_range(0..20);
         let (m, ver, uri) = (["POST","GET","OPTIONS","PUT"][rng.gen_range(0..4)], ["HTTP/2.0","HTTP/1.1"][rng.gen_range(0..2)], uris[rng.gen_range(0..uris.len())]);
